@@ -19,6 +19,7 @@ import vlib
 from vlib import zlit, zlist, blit, coq_opt, coq_list
 
 LEVEL = 'proof'
+_REPLAY = []      # case objects of --replay, run first like the corpus
 IMPORTS = ['SV.C11.Base', 'SV.C11.Utf8', 'SV.C11.Gen_events', 'SV.C11.Envelope', 'SV.C11.Tick',
            'SV.C11.Notify', 'SV.C11.Corr']
 HEADER_KEYS = [b'ver', b'server', b'serial', b'pool', b'poolserial', b'eventname', b'len']
@@ -199,6 +200,12 @@ def _run(chk, wd, proved):
         parts[name] = (ctype, fn, [], [])
         return parts[name][2], parts[name][3]
 
+    # corpus of earlier failures (and the case of --replay), run before everything else of their kind
+    import glob
+    corpus_objs = list(_REPLAY)
+    for f in sorted(glob.glob(os.path.join(vlib.VERIF, 'corpus', 'C11', '*.json'))):
+        with open(f) as fh:
+            corpus_objs.append(json.load(fh))
     try:
         gen_names = c11_events.read_events()['names']
     except Exception as e:
@@ -317,6 +324,10 @@ def _run(chk, wd, proved):
             ev = cls(FakeProc(n, g, pid, 0), pid, d)
             pl = add_payload(cls, '(%s %s %s %s %s)' % (ctor, tlit(n), ogroup(g), zlit(pid), pdata_term(d)), ev,
                              (cls.__name__, n, g, pid, d if isinstance(d, str) else list(d)))
+            if pl is None and cls in leafs:
+                chk.violation({'kind': 'payload() of a concrete PROCESS_LOG/COMMUNICATION event raises on this data',
+                               'class': cls.__name__, 'process': n, 'group': g, 'pid': pid,
+                               'data': list(d) if isinstance(d, bytes) else d})
             # monitor: first line names process, group, pid (and channel); body carries the data
             if pl is not None and all(c not in (n + (g or '')) for c in ' :\n'):
                 head, _, body = pl.partition('\n')
@@ -481,6 +492,10 @@ def _run(chk, wd, proved):
                 if data is None:
                     chk.dist('dispatch:raised:' + str(exc))
                     distinct.add(('dispatch-raised', exc))
+                    if not (exc == 'UnicodeEncodeError' and '55296' in aterm):
+                        # only a lone surrogate handed in from Python (never from XML-RPC) may do this
+                        chk.violation({'kind': 'dispatching a notification raised %s out of EventListenerPool.dispatch' % exc,
+                                       'identifier': sid, 'pool': pn, 'class': cls.__name__, 'event_args': aterm[:500]})
                     continue
                 stream += data
                 # ---- independent judgement of the bytes, as a byte-level listener sees them
@@ -567,6 +582,10 @@ def _run(chk, wd, proved):
         if any(b < a for a, b in zip(rs, rs[1:])):
             chk.dist('ticks:with-backward-jump')
 
+    for obj in corpus_objs:
+        if 'readings_in_ticks' in obj:
+            add_ticks(int(obj.get('ticks_per_second', 1)), [int(r) for r in obj['readings_in_ticks']])
+            chk.dist('corpus:ticks')
     bases = [0, 3, 4, 58, 59, 3598, 3599, 7195, -3, 1700000000 - 1700000000 % 3600 - 2]
     deltas = [-3601, -61, -6, -1, 0, 1, 4, 5, 6, 61, 3601] if quick else [-7200, -3601, -3600, -61, -60, -6, -5, -1, 0, 1, 4, 5, 6, 55, 60, 61, 3600, 3601, 7201]
     depth = 3
@@ -691,7 +710,11 @@ def _run(chk, wd, proved):
         return {True: 'RTrue', False: 'RFalse', None: 'RNone', 'KeyError': 'RKeyError'}[r]
 
     def add_sup(ops):
-        out = I.run_sup_ops(ops)
+        out, stray = I.run_sup_ops(ops)
+        if stray:
+            chk.violation({'kind': 'group / daemon-state notification raised although nothing changed (in a pass after the '
+                                   'last scripted operation, or outside any operation)',
+                           'script': [list(o) for o in ops], 'stray_notifications': stray})
         ops = ops[:len(out)]
         sup_c.append('(%s, %s)' % (coq_list(sop_term(o) for o in ops),
                                    coq_list('(%s, %s)' % (res_term(r), rendered_term(evs)) for r, evs in out)))
@@ -700,6 +723,10 @@ def _run(chk, wd, proved):
         distinct.add(('sup', tuple((r, tuple(c for c, _ in evs)) for r, evs in out)))
         _judge_sup(chk, ops, out)
 
+    for obj in corpus_objs:
+        if 'script' in obj:
+            add_sup([tuple(o) for o in obj['script']])
+            chk.dist('corpus:sup')
     direct = [('add', 'a'), ('add', 'b'), ('remove', 'a', False), ('remove', 'a', True), ('remove', 'b', False)]
     for n in range(0, 4 if quick else 5):
         for ops in itertools.product(direct, repeat=n):
@@ -886,7 +913,11 @@ def _jsonable(x):
 
 
 def replay(chk, path):
+    """Tick sequences and supervisor scripts are re-run as such (first, like the
+    corpus); every other replay names an input that the full run regenerates
+    deterministically from the same seed."""
     with open(path) as f:
         obj = json.load(f)
     print(json.dumps(obj, indent=1)[:4000])
+    _REPLAY.append(obj)
     run(chk)
